@@ -163,6 +163,14 @@ fn iters() {
     vrt::observe("next_back", *it.next_back().unwrap());
     vrt::observe("len", it.len() as i64);
     vrt::observe("try_fold", v.iter().try_fold(0i64, |a, x| a.checked_add(*x)).unwrap_or(-1));
+    vrt::observe("into-find", v.clone().into_iter().find(|x| *x > 2).unwrap_or(-99));
+    vrt::observe("into-any", v.clone().into_iter().any(|x| x == 0) as i64);
+    vrt::observe("into-filter-count", v.clone().into_iter().filter(|x| *x > 0).count() as i64);
+    vrt::observe("into-position", v.clone().into_iter().position(|x| x < 0).map(|i| i as i64).unwrap_or(-1));
+    vrt::observe("slice-range-to", v[..2].iter().sum::<i64>());
+    vrt::observe("slice-range-from", v[4..].iter().sum::<i64>());
+    vrt::observe("slice-range", v[1..=3].len() as i64);
+    vrt::observe("into-try-result", v.clone().into_iter().try_fold(0i64, |a, x| if x != 13 { Ok(a + x) } else { Err(a) }).unwrap_or_else(|e| e));
 }
 
 fn maps() {
